@@ -483,9 +483,17 @@ class Zeroconf(QuietLogger):
         if not service_infos:
             return None
         out = DNSOutgoing(_FLAGS_QR_RESPONSE | _FLAGS_AA)
+        withdrawn: Set[DNSRecord] = set()
         for info in service_infos:
             self._add_broadcast_answer(out, info, 0)
+            withdrawn.update((info.dns_pointer(), info.dns_service(), info.dns_text()))
+            withdrawn.update(info.get_address_and_nsec_records())
         self.registry.async_remove(service_infos)
+        # Answers queued for earlier queries must not go out in between the
+        # goodbye packets: the loss of the last goodbye alone would then leave
+        # the services alive in the caches of the other hosts
+        self.out_queue.async_remove_records(withdrawn)
+        self.out_delay_queue.async_remove_records(withdrawn)
         return out
 
     async def async_unregister_all_services(self) -> None:
